@@ -149,7 +149,14 @@ def run_check(prop, tier, seed, keep=False):
         byid = collections.OrderedDict()
         for tid, step, clause in violations:
             byid.setdefault(tid, []).append((step, clause))
-        for tid, lst in list(byid.items())[:25]:
+        chosen, per_clause = [], collections.Counter()
+        for tid, lst in byid.items():          # a few traces per distinct failing clause
+            if any(per_clause[c] < 4 for _, c in lst) and len(chosen) < 60:
+                chosen.append(tid)
+                for _, c in lst:
+                    per_clause[c] += 1
+        for tid in chosen:
+            lst = byid[tid]
             p = os.path.join(rdir, tid + '.json')
             with open(p, 'w') as f:
                 json.dump({'property': prop, 'tier': tier, 'seed': seed, 'trace_id': tid,
